@@ -116,7 +116,8 @@ func runCase(loop *Loop, tab *Tables, rng *rand.Rand, sig string, batch []Item, 
 	w := newWorld(tab, rng)
 	switch sig {
 	case "trace":
-		reqs, e := loop.ExportTrace(buildSpans(w, batch), random)
+		spans := buildSpans(w, batch)
+		reqs, e := loop.ExportTrace(spans, random)
 		if e != nil {
 			return nil, false, e, nil
 		}
@@ -125,9 +126,17 @@ func runCase(loop *Loop, tab *Tables, rng *rand.Rand, sig string, batch []Item, 
 			outs = append(outs, Out{ProtoNames[i], projectTrace(q.GetResourceSpans())})
 			same = same && sameTrace(reqs[0].GetResourceSpans(), q.GetResourceSpans())
 		}
+		if b, ok := loop.StdoutTrace(spans); ok {
+			g, e := projectStdoutTrace(b)
+			if e != nil {
+				return nil, false, e, nil
+			}
+			outs = append(outs, Out{"stdout", g})
+		}
 		return outs, same, nil, nil
 	case "log":
-		reqs, e := loop.ExportLog(buildLogs(w, batch), random)
+		recs := buildLogs(w, batch)
+		reqs, e := loop.ExportLog(recs, random)
 		if e != nil {
 			return nil, false, e, nil
 		}
@@ -136,9 +145,18 @@ func runCase(loop *Loop, tab *Tables, rng *rand.Rand, sig string, batch []Item, 
 			outs = append(outs, Out{ProtoNames[i], projectLogs(q.GetResourceLogs())})
 			same = same && sameLog(reqs[0].GetResourceLogs(), q.GetResourceLogs())
 		}
+		if b, ok := loop.StdoutLog(recs); ok {
+			g, e := projectStdoutLogs(b)
+			if e != nil {
+				return nil, false, e, nil
+			}
+			outs = append(outs, Out{"stdout", g})
+		}
 		return outs, same, nil, nil
 	case "metric":
 		all := make([][]*metricpb.ResourceMetrics, nvariants(random))
+		var so []ResGroup
+		soOK := true
 		for _, rm := range buildMetrics(w, batch, random) {
 			reqs, e := loop.ExportMetric(rm, random)
 			if e != nil {
@@ -147,11 +165,23 @@ func runCase(loop *Loop, tab *Tables, rng *rand.Rand, sig string, batch []Item, 
 			for i, q := range reqs {
 				all[i] = append(all[i], q.GetResourceMetrics()...)
 			}
+			if b, ok := loop.StdoutMetric(rm); ok && soOK {
+				g, e := projectStdoutMetrics(b)
+				if e != nil {
+					return nil, false, e, nil
+				}
+				so = append(so, g...)
+			} else {
+				soOK = false
+			}
 		}
 		same = true
 		for i, rms := range all {
 			outs = append(outs, Out{ProtoNames[i], projectMetrics(rms)})
 			same = same && sameMetric(all[0], rms)
+		}
+		if soOK {
+			outs = append(outs, Out{"stdout", so})
 		}
 		return outs, same, nil, nil
 	case "zipkin":
@@ -216,6 +246,13 @@ func (rn *runner) do(seed int64, sig, mode string, batch []Item, random bool) {
 	}
 	rn.res.Executed++
 	rn.count(sig, batch)
+	if sig != "zipkin" {
+		if outs[len(outs)-1].Proto == "stdout" {
+			rn.res.Count("stdout_observed_"+sig, 1)
+		} else {
+			rn.res.Count("stdout_refused_"+sig, 1) // the JSON encoder cannot print the batch (NaN / Inf)
+		}
+	}
 	rn.tw.Emit(map[string]any{"ev": "Batch", "cfg": rn.cfg, "case": rn.ncase, "sig": sig, "mode": mode, "rseed": seed,
 		"batch": batch, "outs": outs, "same": same})
 	if rn.ncase%401 == 1 {
@@ -270,6 +307,96 @@ func (rn *runner) count(sig string, batch []Item) {
 	if len(batch) > 30 {
 		res.Count("batches_over_30_items", 1)
 	}
+}
+
+func stackOf() string { return string(debug.Stack()) }
+
+// doE2E executes one end-to-end program through one pipeline and writes its trace line
+func (rn *runner) doE2E(seed int64, sig, mode, pipe string, prog []Item) {
+	rn.ncase++
+	rn.res.Evaluations++
+	var out Out
+	var err error
+	var rp *realPanic
+	for attempt := 0; attempt < 2; attempt++ {
+		out, err, rp = runE2E(rn.loop, rn.tab, rand.New(rand.NewSource(seed)), sig, pipe, prog)
+		var lb errLoopback
+		if err == nil || !errors.As(err, &lb) {
+			break
+		}
+		rn.loop.Close()
+		l, e := NewLoop()
+		vh.Must(e)
+		rn.loop = l
+	}
+	cs := map[string]any{"sig": sig, "mode": mode, "pipe": pipe, "case": rn.ncase, "seed": seed}
+	if rp != nil {
+		rn.res.AddMismatch(vh.Mismatch{Kind: "panic", Case: cs, Path: prog, Detail: fmt.Sprintf("%v\n%s", rp.val, rp.stack)})
+		return
+	}
+	if err != nil {
+		var lb errLoopback
+		if errors.As(err, &lb) {
+			rn.res.Inconcl(fmt.Sprintf("case %d (%s %s): %v", rn.ncase, sig, pipe, err))
+			return
+		}
+		if errors.As(err, &errRefused{}) {
+			rn.res.Count("stdout_refused_e2e_"+sig, 1)
+			return
+		}
+		rn.res.AddMismatch(vh.Mismatch{Kind: "undecodable", Case: cs, Path: prog, Detail: err.Error()})
+		return
+	}
+	rn.res.Executed++
+	rn.count(sig, prog)
+	rn.res.Count("pipe_"+pipe, 1)
+	rn.tw.Emit(map[string]any{"ev": "E2E", "cfg": rn.cfg, "case": rn.ncase, "sig": sig, "mode": mode, "pipe": pipe, "rseed": seed,
+		"batch": prog, "outs": []Out{out}})
+	if rn.ncase%301 == 1 {
+		rn.res.Sample(map[string]any{"sig": sig, "mode": mode, "pipe": pipe, "program": prog, "outs": []Out{out}})
+	}
+}
+
+func e2e(args []string) {
+	fs := flag.NewFlagSet("e2e", flag.ExitOnError)
+	tables := fs.String("tables", "", "")
+	edges := fs.String("edges", "", "TLC edge dump of MC_OtelSDK (empty: seeded random programs)")
+	n := fs.Int("n", 30, "random programs per signal (without -edges)")
+	pipes := fs.Int("pipes", 1, "pipelines per program (rotating; 6 = all)")
+	name := fs.String("name", "e2e-random", "")
+	out := fs.String("out", "trace.ndjson", "")
+	resF := fs.String("res", "result.json", "")
+	fs.Parse(args)
+	tab := loadTables(*tables)
+	loop, err := NewLoop()
+	vh.Must(err)
+	tw, err := vh.NewTraceWriter(*out)
+	vh.Must(err)
+	rn := &runner{cfg: *name, loop: loop, tab: tab, tw: tw, res: vh.NewResult()}
+	run := func(i int, seed int64, sig, mode string, prog []Item) {
+		ps := Pipes[sig]
+		for k := 0; k < *pipes && k < len(ps); k++ {
+			rn.doE2E(seed+int64(k), sig, mode, ps[(i+k+int(vh.Seed()))%len(ps)], prog)
+		}
+	}
+	if *edges != "" {
+		recs, err := readNDJSON[EdgeRec](*edges)
+		vh.Must(err)
+		for i, e := range recs {
+			run(i, vh.Seed()*1000033+int64(i)*7, e.Sig, e.Mode, e.Batch)
+		}
+	} else {
+		r := rand.New(rand.NewSource(vh.Seed()*6029 + 5))
+		for i := 0; i < *n; i++ {
+			for _, sig := range []string{"trace", "metric", "log"} {
+				run(i, r.Int63(), sig, "random", randomProgram(r, tab, sig))
+			}
+		}
+	}
+	rn.loop.Close()
+	vh.Must(tw.Close())
+	rn.res.Count("trace_lines", tw.N)
+	vh.Must(rn.res.Write(*resF))
 }
 
 func replay(args []string) {
@@ -367,6 +494,10 @@ func main() {
 		replay(os.Args[2:])
 	case "random":
 		random(os.Args[2:])
+	case "e2e":
+		e2e(os.Args[2:])
+	case "probe":
+		probe(os.Args[2:])
 	default:
 		os.Exit(3)
 	}
